@@ -6,7 +6,7 @@ import ast
 from typing import Dict, List, Optional, Set, Tuple
 
 from ..model import AnchorError, Program, dotted, kw, last_attr, norm, parent, walk_no_nested
-from ..report import Check
+from ..report import Check, guard
 from .common import calls_in, guards_of, local_assignments, need_locals, returns_of, stmt_of
 
 
@@ -144,6 +144,6 @@ def r06_cd(prog: Program, chk: Check) -> None:
 
 
 def run(prog: Program, chk: Check) -> None:
-    r06_cd(prog, chk)
-    r06_a(prog, chk)
-    r06_b(prog, chk)
+    guard(chk, r06_cd, prog, chk)
+    guard(chk, r06_a, prog, chk)
+    guard(chk, r06_b, prog, chk)
